@@ -11,7 +11,9 @@ package http2
 
 import (
 	"fmt"
+	"reflect"
 	"sort"
+	"strings"
 )
 
 // ---- shells ------------------------------------------------------------
@@ -133,6 +135,85 @@ type VerifC20Snap struct {
 	Closed, Idle  []string
 	ThrottleLimit int32
 	Pool          []int // len(q.s) of every pooled queue
+	// Uncovered lists, with their values, the fields of the scheduler structures that the hand-written dump above does
+	// not know (a field ADDED by a change to the code under test): without them two states with equal dumps could have
+	// different futures and the search would merge them unsoundly. "<unsupported>" marks a field whose value cannot be
+	// canonicalised.
+	Uncovered string
+}
+
+var verifC20Known = map[string]map[string]bool{
+	"writeQueue":               {"s": true, "prev": true, "next": true},
+	"roundRobinWriteScheduler": {"control": true, "streams": true, "head": true, "queuePool": true},
+	"randomWriteScheduler":     {"zero": true, "sq": true, "queuePool": true},
+	"priorityWriteScheduler": {"root": true, "nodes": true, "maxID": true, "closedNodes": true, "idleNodes": true, "maxClosedNodesInTree": true,
+		"maxIdleNodesInTree": true, "writeThrottleLimit": true, "enableWriteThrottle": true, "tmp": true, "queuePool": true},
+	"priorityNode": {"q": true, "id": true, "weight": true, "state": true, "bytes": true, "subtreeBytes": true, "parent": true, "kids": true, "prev": true, "next": true},
+}
+
+func verifC20Uncovered(ws WriteScheduler) string {
+	var out []string
+	seen := map[uintptr]bool{}
+	var walk func(v reflect.Value, path string, depth int)
+	walk = func(v reflect.Value, path string, depth int) {
+		if depth > 64 {
+			return
+		}
+		switch v.Kind() {
+		case reflect.Ptr, reflect.Interface:
+			if v.IsNil() {
+				return
+			}
+			if v.Kind() == reflect.Ptr {
+				if seen[v.Pointer()] {
+					return
+				}
+				seen[v.Pointer()] = true
+			}
+			walk(v.Elem(), path, depth+1)
+		case reflect.Struct:
+			known := verifC20Known[v.Type().Name()]
+			if known == nil {
+				return
+			}
+			for i := 0; i < v.NumField(); i++ {
+				f := v.Type().Field(i)
+				fv := v.Field(i)
+				if known[f.Name] {
+					if f.Name == "s" || f.Name == "tmp" {
+						continue
+					}
+					walk(fv, path+"."+f.Name, depth+1)
+					continue
+				}
+				switch fv.Kind() {
+				case reflect.Bool:
+					out = append(out, fmt.Sprintf("%s.%s=%v", path, f.Name, fv.Bool()))
+				case reflect.Int, reflect.Int8, reflect.Int16, reflect.Int32, reflect.Int64:
+					out = append(out, fmt.Sprintf("%s.%s=%d", path, f.Name, fv.Int()))
+				case reflect.Uint, reflect.Uint8, reflect.Uint16, reflect.Uint32, reflect.Uint64, reflect.Uintptr:
+					out = append(out, fmt.Sprintf("%s.%s=%d", path, f.Name, fv.Uint()))
+				case reflect.String:
+					out = append(out, fmt.Sprintf("%s.%s=%q", path, f.Name, fv.String()))
+				default:
+					out = append(out, fmt.Sprintf("%s.%s=<unsupported>", path, f.Name))
+				}
+			}
+		case reflect.Map:
+			keys := v.MapKeys()
+			sort.Slice(keys, func(i, j int) bool { return keys[i].Uint() < keys[j].Uint() })
+			for _, k := range keys {
+				walk(v.MapIndex(k), fmt.Sprintf("%s[%d]", path, k.Uint()), depth+1)
+			}
+		case reflect.Slice, reflect.Array:
+			for i := 0; i < v.Len(); i++ {
+				walk(v.Index(i), fmt.Sprintf("%s[%d]", path, i), depth+1)
+			}
+		}
+	}
+	walk(reflect.ValueOf(ws), "ws", 0)
+	sort.Strings(out)
+	return strings.Join(out, ";")
 }
 
 func verifC20Copy(s []FrameWriteRequest) []FrameWriteRequest {
@@ -152,6 +233,12 @@ func verifC20Pool(p writeQueuePool) []int {
 }
 
 func VerifC20Snapshot(ws WriteScheduler) VerifC20Snap {
+	snap := verifC20Snapshot(ws)
+	snap.Uncovered = verifC20Uncovered(ws)
+	return snap
+}
+
+func verifC20Snapshot(ws WriteScheduler) VerifC20Snap {
 	switch s := ws.(type) {
 	case *roundRobinWriteScheduler:
 		return verifC20SnapRR(s)
